@@ -105,6 +105,7 @@ impl ProtocolState {
         &&& ((self.state == ProtocolStateType::Connected || self.state == ProtocolStateType::PendingDisconnect) ==> self.current_settings is Some)
         &&& (self.state == ProtocolStateType::PendingConnack ==> self.connack_timeout_timepoint is Some)
         &&& (self.state == ProtocolStateType::PendingDisconnect ==> self.current_operation is None)
+        &&& self.pwc_ok()
     }
 
     // W3
@@ -153,6 +154,15 @@ impl ProtocolState {
         &&& (self.state == ProtocolStateType::PendingConnack ==> self.connack_timeout_timepoint is Some)
         // W13: nothing is being encoded once the DISCONNECT has gone out
         &&& (self.state == ProtocolStateType::PendingDisconnect ==> self.current_operation is None)
+        // W14: what waits for a write completion completes without a response packet (never a SUBSCRIBE / UNSUBSCRIBE / QoS1+ PUBLISH)
+        &&& self.pwc_ok()
+    }
+
+    pub open spec fn pwc_ok(&self) -> bool {
+        forall|i: int| 0 <= i < self.pending_write_completion_operations@.len() ==> {
+            let k = #[trigger] self.pending_write_completion_operations@[i];
+            k < self.next_operation_id && (self.operations@.contains_key(k) ==> !takes_packet_id(*self.operations@[k].packet))
+        }
     }
 
     // W5 (kept separate: see finding F-TIMEOUT-CURRENT)
